@@ -10,9 +10,7 @@ from fractions import Fraction
 from vf import core
 
 S = 0.25
-ROOTS = {1: [1, 5, -3], 2: [3, -2], 3: [3, 7]}         # SimRoots of OdeSystemMC.tla
-ROOTS_AD = {1: [1], 2: [3], 3: [3]}                   # SimRootsAd (adaptive replay)
-TERMINAL = {2}
+# the roots of the event functions come with each behaviour (log[0]["roots"], the model's ROOTS constant): one source of truth
 STATUS = {"Integration has not been run.": "notrun", "Integration completed successfully.": "done",
           "Integration terminated upon finding a triggered event.": "event"}
 
@@ -78,10 +76,10 @@ def scripted_class(script, st):
     return Scripted
 
 
-def _events(table):
+def _events(roots_of_model):
     fns = []
-    for k in (1, 2, 3):
-        roots = [r * S for r in table[k]]
+    for k in sorted({r["ev"] for r in roots_of_model}):
+        roots = [r["t"] * S for r in roots_of_model if r["ev"] == k]
 
         def g(t, y, _roots=roots, **kw):
             v = 1.0
@@ -89,7 +87,7 @@ def _events(table):
                 v = v * (t - r)
             return v
         g._vf_ev = k
-        g.is_terminal = k in TERMINAL
+        g.is_terminal = any(r["term"] for r in roots_of_model if r["ev"] == k)
         fns.append(g)
     return fns
 
@@ -136,7 +134,8 @@ def replay(log, method):
         finally:
             st["depth"] -= 1
     sys_.integrate = integrate
-    evfns = _events(ROOTS_AD if method == "scripted" else ROOTS)
+    evfns = _events(init["roots"])
+    terminal = {r["ev"] for r in init["roots"] if r["term"]}
 
     def wrap_ev(g):
         def h(t, y, **kw):
@@ -228,7 +227,7 @@ def replay(log, method):
             i = j
         elif e["k"] == "ret":
             p = e["p"]
-            if any(ev["ev"] in TERMINAL for ev in p["events"]):
+            if any(ev["ev"] in terminal for ev in p["events"]):
                 approx = True
                 st["approx"] = True
             tol = (lambda a, b: abs(a - b) <= 1e-9 * max(1.0, abs(b))) if approx else (lambda a, b: Fraction(float(a)) == Fraction(float(b)))
@@ -305,7 +304,7 @@ def phase(run, cfgs, prefix, kinds, keep=None, replay=None, num=None):
         res = [_job(items[0])]
         n_states = 0
     else:
-        num = num or (300 if run.tier == "quick" else 3000)
+        num = num or (300 if run.tier == "quick" else 1500)
         logs = []
         n_states = 0
         for cfg in cfgs:
